@@ -36,7 +36,7 @@ func (s *Server) Rename(ctx context.Context, params *protocol.RenameParams) (*pr
 	}
 
 	resolved := s.getWorkspaceResolved(params.TextDocument.URI)
-	currentPath := uriToPath(params.TextDocument.URI)
+	currentPath := s.resolvedPrimaryPath(params.TextDocument.URI)
 
 	locations := findReferences(target, resolved, currentPath, journal, true)
 	if len(locations) == 0 {
